@@ -179,7 +179,7 @@ def check(an: Analysis) -> None:
             w = g.ordered(lambda n, a=a: n is a, lambda n: n in cn)
             if w is not None and len(appends) == 1:
                 ob.fail(f, a.ast, "the call can begin before its start was recorded", CFG.show_path(w))
-    for s_ in sleeps:
+    for s_ in sleeps if appends else []:
         aw = [n for n in g.nodes if n.kind == "await" and n.ast.value is s_.ast]  # type: ignore[union-attr]
         # on the path that waits, the stamp is written after the wait - not before it
         w = g.search([g.entry], lambda n, s_=s_: n is s_, skip_edge=normal_only)
